@@ -66,7 +66,9 @@ func (c10Sys) Root() *c10State {
 	return s
 }
 
-func (c10Sys) Digest(s *c10State) [32]byte { return s.w.Digest(s.ctx) }
+// the model is part of the state key: a change that turns an operation into a no-op on the stores must
+// not make the successor look like an already visited state (its model differs, and Check has to see it)
+func (c10Sys) Digest(s *c10State) [32]byte { return s.w.Digest(s.ctx, []byte(fmt.Sprint(s.b))) }
 
 const c10LongTo = "init1qqqqqqqqqqqqqqqqqqqqqqqqqqqqqqqqqqqqqqqqqqqqqqqqqqqqqqqqqqqqqqqqqqqqqqqqqqqqqq/with spaces and ünïcode"
 
